@@ -112,6 +112,9 @@ def locals_for_run():
     return None
 
 
+_PREIMPORTED = []
+
+
 def interleaved_compiles(jobs, seed, permille, options_for, share_list):
     """Run one compile_ufl_objects per job, each in its own thread, under a cooperative
     scheduler: a baton (one lock per thread) makes exactly one thread runnable; at every entry
@@ -123,6 +126,17 @@ def interleaved_compiles(jobs, seed, permille, options_for, share_list):
     import ffcx.compiler
 
     pkg = os.path.dirname(os.path.abspath(ffcx.__file__)) + os.sep
+    if not _PREIMPORTED:
+        # lazily imported back-end modules are imported before any thread runs
+        import importlib
+        import pkgutil
+
+        for m in pkgutil.walk_packages(ffcx.__path__, "ffcx."):
+            try:
+                importlib.import_module(m.name)
+            except Exception:
+                pass
+        _PREIMPORTED.append(True)
     rng = random.Random(seed)
     n = len(jobs)
     gates = [threading.Semaphore(0) for _ in range(n)]
@@ -138,10 +152,20 @@ def interleaved_compiles(jobs, seed, permille, options_for, share_list):
         return rng.choice(cands) if cands else None
 
     def make_prof(me):
+        importing = [0]  # depth of imports in progress in this thread (it holds import locks)
+
         def prof(frame, event, arg):
-            # never while a module body runs: the thread then holds that module's import lock
-            if event == "call" and frame.f_code.co_filename.startswith(pkg) \
-                    and frame.f_code.co_name != "<module>":
+            code = frame.f_code
+            if code.co_name == "_find_and_load" and code.co_filename == "<frozen importlib._bootstrap>":
+                if event == "call":
+                    importing[0] += 1
+                elif event == "return":
+                    importing[0] -= 1
+                return None
+            # never while an import is in progress in this thread or while a module or class body
+            # runs: the thread then holds an import lock another thread may need
+            if event == "call" and importing[0] == 0 and code.co_filename.startswith(pkg) \
+                    and code.co_flags & 0x1:
                 if rng.randrange(1000) < permille:
                     nxt = pick_other(me)
                     if nxt is not None:
